@@ -61,6 +61,8 @@ def make_symbolic(I, kind, name):
         if isinstance(v, str) and v[:2] in ('T:', 'E:'):
             import kmip.core.enums as _en
             return getattr(_en.Types, v[2:]) if v[0] == 'T' else getattr(_en, v[2:])
+        if v == 'EMPTYLIST':
+            return []
         if isinstance(v, str) and v[:2] == 'K:':
             import kmip.pie.objects as _po
             return getattr(_po, v[2:])
@@ -344,6 +346,7 @@ def prove_contract(session, c, max_paths=4000, time_budget=None, known=()):
         session.cover(key + "/cover.return")
         post_locals = dict(spec_locals)
         post_locals['result'] = result
+        I.ghost_globals['__result__'] = result
         for (ename, src) in c.ensures_:
             v = I.eval_spec(src, post_locals, ex.module.__dict__, old, ex.cls)
             path.prove("%s/post.%s" % (key, ename), I.truth(v), kind="post")
@@ -431,7 +434,12 @@ def heap_snapshot(I, roots):
         if isinstance(v, Obj):
             if id(v) in seen:
                 return
-            seen[id(v)] = (v, dict(v.fields))
+            snap = dict(v.fields)
+            # native containers held in fields: remember their content (in-place mutation)
+            content = {f: (list(x) if isinstance(x, list) else dict(x))
+                       for f, x in v.fields.items() if isinstance(x, (list, dict))}
+            v.meta['__content_snapshot__'] = content
+            seen[id(v)] = (v, snap)
             for f in list(v.fields.values()):
                 walk(f, depth + 1)
         elif isinstance(v, (list, tuple)):
@@ -486,6 +494,14 @@ def _check_frame(I, c, qn, heap0, args):
                 break
             newv = o.fields[f]
             if newv is oldv:
+                before = o.meta.get('__content_snapshot__', {}).get(f)
+                if before is not None and isinstance(newv, (list, dict)):
+                    same = (len(before) == len(newv)) and (
+                        all(a is b for a, b in zip(before, newv)) if isinstance(newv, list)
+                        else all(k in newv and newv[k] is x for k, x in before.items()))
+                    if not same:
+                        bad = "%s.%s (container mutated in place)" % (o.cls.__name__, f)
+                        break
                 continue
             r = M.equals(I, newv, oldv) if not isinstance(newv, (Obj, list, dict)) else (newv is oldv)
             if r is True:
